@@ -316,6 +316,8 @@ func checkC12(p *Prog, r *Report) {
 	// R12e
 	fc.ruleReadAt2(r, mem, dir)
 	fc.ruleLinkDelete2(r, mem)
+	r.Rule("R12f", "List is exactly the set of names: the directory implementation returns the names accumulated by the kernel enumeration (unix.ParseDirent threaded through the read loop) and nothing rebuilds or filters them; the in-memory implementation appends every directory entry whose directory equals the argument, under no other condition", 2)
+	fc.ruleList(r, mem, dir)
 	// contents clause of AtomicCreate, shared with C13 (filed there as R13c / R13e)
 	declareC13Rules(r)
 	fc.ruleAtomicCreateDir2(r, dir, false)
@@ -384,4 +386,91 @@ func reachesInstr(a, b ssa.Instruction) bool {
 		q = append(q, x.Succs...)
 	}
 	return false
+}
+
+// ruleList: List returns exactly the set of names.
+func (fc *fsCtx) ruleList(r *Report, mem, dir *fsImpl) {
+	p := fc.p
+	if f := dir.Methods["List"]; f != nil {
+		r.Func(FuncName(f))
+		bad, nParse := "", 0
+		for _, b := range f.Blocks {
+			ret, ok := b.Instrs[len(b.Instrs)-1].(*ssa.Return)
+			if !ok || len(ret.Results) != 1 {
+				continue
+			}
+			for _, o := range p.originsDeep(ret.Results[0]) {
+				switch x := o.(type) {
+				case *ssa.MakeSlice:
+				case *ssa.Const:
+				case *ssa.Slice:
+					// make([]string, 0, N) with constant capacity: an empty slice of a fresh array
+					if al, ok := x.X.(*ssa.Alloc); ok && x.Low == nil && al.Comment == "makeslice" {
+						continue
+					}
+					bad = "the returned names are a re-sliced " + sk(x.X) + ": the kernel's enumeration is rebuilt or filtered before it is returned"
+				case *ssa.Alloc:
+					if x.Comment == "makeslice" {
+						continue
+					}
+					bad = "the returned names come from " + sk(o)
+				case *ssa.Extract:
+					if c, ok := x.Tuple.(*ssa.Call); ok && calleeName(c) == "golang.org/x/sys/unix.ParseDirent" && x.Index == 2 {
+						nParse++
+						continue
+					}
+					bad = "the returned names come from " + sk(o)
+				default:
+					bad = "the returned names come from " + sk(o) + " (" + instrKind2(o) + "): the kernel's enumeration is rebuilt or filtered before it is returned"
+				}
+			}
+		}
+		r.Check("R12f", dir.Name+".List returns the enumerated names unfiltered", f.Pos(), bad == "" && nParse > 0, bad)
+	} else {
+		r.Anchor("R12f", dir.Name+".List")
+	}
+	if f := mem.Methods["List"]; f != nil {
+		r.Func(FuncName(f))
+		rm := p.Rels(f)
+		n, bad := 0, ""
+		var dirParam string
+		for _, pa := range f.Params {
+			if bt, ok := pa.Type().Underlying().(*types.Basic); ok && bt.Info()&types.IsString != 0 {
+				dirParam = pa.Name()
+			}
+		}
+		p.instrs(f, func(b *ssa.BasicBlock, i int, in ssa.Instruction) {
+			c, ok := in.(*ssa.Call)
+			if !ok {
+				return
+			}
+			if bi, ok := c.Call.Value.(*ssa.Builtin); !ok || bi.Name() != "append" {
+				return
+			}
+			n++
+			for k := range p.RelsAt(rm, c) {
+				if isLoopBoundFact(k) || strings.Contains(k, "next(range(") && strings.HasSuffix(k, "#0 == true") {
+					continue
+				}
+				if !strings.Contains(k, "next(range(") {
+					continue // a condition on the arguments (valid directory), not on the entry
+				}
+				j := topLevelIndex(k, " == ")
+				if j >= 0 && (k[:j] == dirParam && strings.HasSuffix(k[j+4:], ".dir") || k[j+4:] == dirParam && strings.HasSuffix(k[:j], ".dir")) {
+					continue
+				}
+				bad = "a name is listed only under the additional condition " + k
+			}
+		})
+		r.Check("R12f", mem.Name+".List lists every entry of the directory", f.Pos(), n == 1 && bad == "", fmt.Sprintf("%d appends; %s", n, bad))
+	} else {
+		r.Anchor("R12f", mem.Name+".List")
+	}
+}
+
+func instrKind2(v ssa.Value) string {
+	if in, ok := v.(ssa.Instruction); ok {
+		return instrKind(in)
+	}
+	return fmt.Sprintf("%T", v)
 }
